@@ -397,6 +397,8 @@ def run(ck):
             pbad = property_distributed(m)
         except Exception as e:
             pbad = None
+            if not any('distributed-load evaluator raised' in str(b) for b in ck.broken):
+                ck.broken.append('distributed-load evaluator raised %s: %s' % (type(e).__name__, e))
         if pbad:
             viol_d.append(dict(kind='distributed', gen_seed=gs, small=(ck.tier == 'quick'), observed=pbad, antenna=ant))
         elif why:
